@@ -494,15 +494,16 @@ class Report:
             and res.get("closed", 0) == res.get("printed", -1)
             and res.get("closed", 0) >= len(res.get("theorems", [])) >= 1
             and not res.get("forbidden"))
+        prev = self.coverage if "obligations" in self.coverage else {}
         self.coverage.update({
-            "obligations": obligations,
-            "discharged": obligations if ok else 0,
-            "property_theorems": res.get("theorems", []),
-            "nonvacuity_examples": res.get("examples", []),
-            "print_assumptions_closed": res.get("closed", 0),
-            "axioms_reported": res.get("open", []),
-            "checker_cmd": f"make -C coq -j16 && coqc -Q theories TF -Q props TFP props/{pid}.v "
-                           "(full .vo build; Print Assumptions under every property theorem)",
+            "obligations": prev.get("obligations", 0) + obligations,
+            "discharged": prev.get("discharged", 0) + (obligations if ok else 0),
+            "property_theorems": prev.get("property_theorems", []) + res.get("theorems", []),
+            "nonvacuity_examples": prev.get("nonvacuity_examples", []) + res.get("examples", []),
+            "print_assumptions_closed": prev.get("print_assumptions_closed", 0) + res.get("closed", 0),
+            "axioms_reported": prev.get("axioms_reported", []) + res.get("open", []),
+            "checker_cmd": (prev.get("checker_cmd", "make -C coq -j16 (full .vo build)") +
+                f" && coqc props/{pid}.v + Print Assumptions for every theorem of it"),
         })
         if ok and self.tier == "thorough":
             # independent re-check of the compiled property file and everything
